@@ -47,6 +47,25 @@ def guard_cases(kc):
     return out
 
 
+def mismatched_cases(rng, tier):
+    """operands of DIFFERENT length through the public entry points, each flush against a guard page"""
+    out = []
+    lens = [0, 1, 7, 8, 9, 31, 32, 33, 63, 64, 65, 127, 128, 129, 200]
+    for _ in range(60 if tier == "quick" else 600):
+        dl = rng.choice(lens)
+        sl = rng.choice([x for x in lens if x != dl])
+        cc = rng.choice([1, 2, 3, 0x53, 255])
+        place = rng.below(2)
+        op = rng.choice([4, 5, 6])
+        if op == 6:
+            nw = -(-sl // 64)
+            a = [6, 4, place, cc, dl, sl, nw] + [rng.below(1 << 64) for _ in range(nw)] + [rng.below(256) for _ in range(dl)]
+        else:
+            a = [op, 4, place, cc, dl, sl] + [rng.below(256) for _ in range(dl + sl)]
+        out.append(C.Case("kg", a, tag="mismatch"))
+    return out
+
+
 def evaluate(cases, rep, tier):
     kc = [c for c in cases if c.fn.startswith("k_")]
     sc = [c for c in cases if c.fn == "slab_replay"]
@@ -55,13 +74,24 @@ def evaluate(cases, rep, tier):
     # element-wise mismatches are C11's business; here they still mean the access model is not validated
     other = [c for c in res["counterexamples"] if c.get("oracle") != "canary"]
     # guard pages: an access outside an operand faults even when it rewrites identical bytes
-    gc = guard_cases([c for c in kc if c.tag != "malformed"])
-    gres = C.run_impl_crashsafe(gc, "release")
+    gc = guard_cases([c for c in kc if c.tag != "malformed"]) + mismatched_cases(C.Rng(C.get_seed()).fork("C12mis"), tier)
     crashes = 0
-    for c, r in zip(gc, gres):
-        if r.startswith("CRASH"):
-            crashes += 1
-            counter.append({"input": c.impl_line()[:600], "expected": "no access outside the operands", "observed": "the process died with signal %s on a guard page (operand placed at the %s of its mapping)" % (r.split()[1].lstrip("-"), "end" if c.args[2] == 0 else "start"), "oracle": "guard pages"})
+    refused = 0
+    for prof in PROFILES:
+        gres = C.run_impl_crashsafe(gc, prof)
+        for c, r in zip(gc, gres):
+            if r.startswith("CRASH"):
+                crashes += 1
+                counter.append({"input": c.impl_line()[:600], "expected": "no access outside the operands", "observed": "the process died with signal %s on a guard page (operands placed at the %s of their mappings)" % (r.split()[1].lstrip("-"), "end" if c.args[2] == 0 else "start"), "profile": prof, "oracle": "guard pages"})
+            elif c.tag == "mismatch":
+                # the dispatchers assert equal lengths (Model/Kernels.v: PAssert): anything but a refusal means
+                # the kernel ran over operands of different length
+                if r.startswith("0"):
+                    refused += 1
+                else:
+                    counter.append({"input": c.impl_line()[:600], "expected": "a refusal (panic): the operands have different lengths", "observed": "returned normally: " + r[:60], "profile": prof, "oracle": "length guard of the public kernel entry points"})
+        if len(counter) > 5:
+            break
     # slab op lists: crash-safe (a bypassed guard corrupts the heap and may abort the process)
     model_s = C.run_model(sc)
     impl_s = C.run_impl_crashsafe(sc, "release")
@@ -80,6 +110,7 @@ def evaluate(cases, rep, tier):
     st["slab_replays"] = len(sc)
     st["guard_page_runs"] = len(gc)
     st["guard_page_faults"] = crashes
+    st["mismatched_length_calls_refused"] = refused
     st["evaluations"] += len(gc)
     return {"disagreements": res["disagreements"] + dis_s + [{"input": o["input"], "impl": o["observed"], "model": o["expected"], "group": "kernels"} for o in other[:3]],
             "counterexamples": counter, "stats": st}
